@@ -110,18 +110,32 @@ def accuracy_case(c):
     return ok, f"shift {np.round(res.shift, 3).tolist()} vs d {d.tolist()} (err {err:.3f} px, tol {tol}), score {float(res.score):.3f}", err
 
 
+DIRECTED = [
+    # reproducer of the recorded finding C04-fsc-half-integer-lag
+    dict(model="fsc", shape=[14, 14, 14], max_shifts=[1.0, 1.0, 1.0], d=[0.35, 0.45, -0.1], seed=2098463371, cutoff=None, tilt=None, rotvec=None, dkind="small"),
+]
+
+
 def oracle_accuracy(ck, rng):
     n = 40 if ck.tier == "quick" else 1200
-    for i in range(n):
+    for i in range(-len(DIRECTED), n):
+        if i < 0:
+            _accuracy_one(ck, dict(DIRECTED[i + len(DIRECTED)]))
+            continue
         model = ["zncc", "ncc", "pcc", "fsc"][i % 4] if i % 8 < 7 else "zncc"
         if model == "fsc" and ck.tier == "quick" and i % 16 != 3:
             model = "ncc"
         shape = [int(x) for x in rng.integers(12, 20, size=3)]
         if i % 3 == 0:
             shape = [shape[0]] * 3
-        m = float(rng.choice([1.0, 1.5, 2.0, 2.6, 3.0]))
+        m = float(rng.choice([1.0, 1.5, 2.0, 2.6, 3.0, 1.9, 2.75, 3.8]))
         if model == "fsc":
             m = min(m, 2.0)
+        # "a copy of the template displaced by d": the displaced density must stay inside the box (the Fourier
+        # displacement wraps around), so large ranges need boxes of at least 2 * (m + 4.5) voxels
+        lo = int(np.ceil(2 * (m + 4.5)))
+        if lo > 12:
+            shape = [max(x, lo) for x in shape]
         kind = i % 5
         if kind == 0:
             d = rng.integers(-int(m), int(m) + 1, size=3).astype(float)
@@ -137,14 +151,26 @@ def oracle_accuracy(ck, rng):
         c = dict(model=model, shape=shape, max_shifts=[m] * 3, d=[float(x) for x in d], seed=int(rng.integers(0, 2**31)),
                  cutoff=(0.45 if i % 7 == 0 else None), tilt=None, rotvec=((rng.normal(size=3) * 0.4).tolist() if i % 6 == 0 else None),
                  dkind=["integer", "fractional", "face", "corner", "small"][kind])
+        _accuracy_one(ck, c)
+
+
+def _accuracy_one(ck, c):
+        model = c["model"]
         try:
             ok, detail, err = accuracy_case(c)
         except Exception as e:  # noqa
             ok, detail, err = False, f"raised {type(e).__name__}: {e}", None
         ck.oracle_count("displacement_recovery", 1, 1)
         if not ok:
-            ck.violation(what=f"{model}: {detail}", inp=c, key={"site": "accuracy", "model": model, "dkind": c["dkind"]},
-                         oracle="displacement_recovery", measured=err)
+            key = {"site": "accuracy", "model": model, "dkind": c["dkind"]}
+            if model == "fsc" and err is not None and err <= 0.6 + 1e-6 and "score" in detail:
+                # which components fail, and are they all within 0.1 px of a half-integer (where two integer lags tie)?
+                import re
+                got = json.loads(re.search(r"shift (\[[^\]]*\])", detail).group(1))
+                badc = [i for i in range(3) if abs(got[i] - c["d"][i]) > 0.5 + 1e-6]
+                if badc and all(abs(abs(c["d"][i]) % 1 - 0.5) <= 0.1 + 1e-9 for i in badc):
+                    key = {"site": "accuracy", "model": "fsc", "class": "half-integer-lag-ambiguity"}
+            ck.violation(what=f"{model}: {detail}", inp=c, key=key, oracle="displacement_recovery", measured=err)
 
 
 def run(ck: common.Check):
